@@ -138,14 +138,20 @@ static int op_llenc(toks_t *t)
   size_t n = (size_t)w * h * nc, i;
   unsigned short *img = (unsigned short *)malloc(n * 2 + 2), *dec = (unsigned short *)malloc(n * 2 + 2);
   unsigned char *out = NULL; unsigned long outsize = 0;
-  char why[200] = "";
+  char why[200] = ""; int layout_op = 0;
   ll_image(img, P, nc, w, h, kind, seed);
   ll_layout = (!strcmp(t->tok[0], "llscan") && t->n > 11) ? (int)tl(t, 11) : 0;
   if (!ll_compress(P, Pt, psv, R, nc, w, h, ycc, img, &out, &outsize, &err)) { ll_layout = 0; printf("R err %d\n", err); goto done; }
-  if (ll_layout) { printf("R skip layout %d size %lu\n", ll_layout, outsize); ll_layout = 0; }
-  else { printf("R "); ll_dissect(out, outsize); printf("\n"); }
+  if (ll_layout) { printf("R skip layout %d size %lu\n", ll_layout, outsize); ll_layout = 0; layout_op = 1; }
+  else { printf("R "); ll_dissect(out, outsize); }
   /* oracle: decode and compare with (s >> Pt) << Pt */
-  if (!ll_decompress(out, outsize, P, nc, w, h, dec, &warns, &err)) { bad = 1; snprintf(why, sizeof(why), "own decompressor failed (error %d)", err); }
+  if (!ll_decompress(out, outsize, P, nc, w, h, dec, &warns, &err)) { bad = 1; snprintf(why, sizeof(why), "own decompressor failed (error %d)", err); if (!layout_op) printf(" dec none\n"); }
+  else if (!layout_op) {                                  /* what the decompressor returned, for the model's llDecode */
+    unsigned char *b = (unsigned char *)malloc(n * 2 + 1);
+    for (i = 0; i < n; i++) { b[2 * i] = (unsigned char)(dec[i] & 255); b[2 * i + 1] = (unsigned char)(dec[i] >> 8); }
+    printf(" dec %zu:%llu\n", n, fnv(b, n * 2)); free(b);
+  }
+  if (bad) ;
   else if (warns) { bad = 1; snprintf(why, sizeof(why), "own decompressor warned (%d warnings, first code %d)", warns, err); }
   else for (i = 0; i < n; i++) {
     unsigned exp = ((unsigned)img[i] >> Pt) << Pt;
